@@ -64,12 +64,16 @@ class WeakRefModel:
         return self.target
 
 
-OPERAND_CONFIGS = [("T",), ("T", "A"), ("T", "T"), ("T", "T0"), ("A", "T"), ("T", "S")]
+OPERAND_CONFIGS = [("T",), ("T", "A"), ("T", "T"), ("T", "T0"), ("A", "T"), ("T", "S"), ("T", "S", "dtype=None"), ("T", "S", "dtype=given")]
 RELS = ["fresh", "fresh_with_base", "view_p0", "shares_p0_base", "is_p0", "view_p1"]
 P0_STATES = ["owner", "view", "stale_view"]
 
 
 def harness(cfgk, rel, can_view, outk, raises, guard, constk, p0state):
+    # a trailing "dtype=..." marker puts an explicit loop dtype into op_kwargs (the ufunc's dtype= option)
+    dtkw = next((c.split("=")[1] for c in cfgk if c.startswith("dtype=")), "absent")
+    cfgk_full, cfgk = cfgk, tuple(c for c in cfgk if not c.startswith("dtype="))
+
     def h(ctx: Ctx):
         Arr._n = 0
         cfg = Config()
@@ -86,6 +90,10 @@ def harness(cfgk, rel, can_view, outk, raises, guard, constk, p0state):
             @staticmethod
             def result_type(*a):
                 return ("result_type", a)
+
+            @staticmethod
+            def dtype(x):
+                return ("np.dtype", x)
 
             @staticmethod
             def asarray(x, *a, **k):
@@ -154,6 +162,12 @@ def harness(cfgk, rel, can_view, outk, raises, guard, constk, p0state):
         if out is not None and rel not in ("fresh", "fresh_with_base"):
             return  # with out= the result array is the out array
         a1, kw1 = Opaque("op_arg"), Opaque("op_kwarg")
+        loop_dtype = Opaque("explicit loop dtype")
+        op_kw = {"kw": kw1}
+        if dtkw == "None":
+            op_kw["dtype"] = None
+        elif dtkw == "given":
+            op_kw["dtype"] = loop_dtype
 
         class FakeOpInst:
             can_return_view = can_view
@@ -216,11 +230,11 @@ def harness(cfgk, rel, can_view, outk, raises, guard, constk, p0state):
         constant = {"none": None, "true": True, "false": False}[constk]
         f, _ = T.lookup(interp, "_op")
         snap = {id(t): (dict(t.fields), set(t.fields["_ops"]), list(interp.iterate_concrete(t.fields["_view_children"]))) for t in (p0, B) + ((p1,) if p1 is not None else ())}
-        tag = f"op[{''.join(cfgk)},{rel},view={can_view},out={outk},raises={raises},guard={guard},const={constk},p0={p0state}]"
+        tag = f"op[{''.join(cfgk_full)},{rel},view={can_view},out={outk},raises={raises},guard={guard},const={constk},p0={p0state}]"
         meta = dict(function=f"{TB}:Tensor._op", scenario=tag)
         raised = None
         try:
-            r = interp.call(f.func, [T, FakeOp()] + operands, dict(op_args=(a1,), op_kwargs={"kw": kw1}, constant=constant, out=out))
+            r = interp.call(f.func, [T, FakeOp()] + operands, dict(op_args=(a1,), op_kwargs=dict(op_kw), constant=constant, out=out))
         except SymRaise as e:
             raised = e.exc
         kernel = [e_ for e_ in ev if e_[0] == "kernel"]
@@ -242,13 +256,23 @@ def harness(cfgk, rel, can_view, outk, raises, guard, constk, p0state):
                 wi += 1
                 ok_cast = ok_cast and a[0] is o and k.get("constant") is True and k.get("copy") is False
                 if isinstance(o, float):
-                    ok_cast = ok_cast and isinstance(k.get("dtype"), tuple) and k["dtype"][0] == "result_type"
+                    # NEP 50: the scalar takes result_type(<dtypes of the array/tensor operands>, scalar) -- or, when the call
+                    # carries an explicit loop dtype, result_type(np.dtype(<that dtype>), scalar): it is converted at the
+                    # precision the calculation runs in, not at the operands' precision
+                    dt = k.get("dtype")
+                    ok_cast = ok_cast and isinstance(dt, tuple) and dt[0] == "result_type" and dt[1][-1] is o
+                    if ok_cast:
+                        others = [x.fields["data"].dtype if isinstance(x, SObj) else x.dtype for x in operands if not isinstance(x, float)]
+                        if dtkw == "given":
+                            ok_cast = len(dt[1]) == 2 and dt[1][0] == ("np.dtype", loop_dtype)
+                        else:
+                            ok_cast = len(dt[1]) == len(others) + 1 and all(x is y for x, y in zip(dt[1][:-1], others))
                 else:
                     ok_cast = ok_cast and k.get("dtype", None) is None
                 tensor_vars.append(t)
         ctx.oblige(f"C03.cast.{tag}", ok_cast and wi == len(wrapped), **meta)
         ctx.oblige(f"C03.kernel_call.{tag}", len(kernel) == 1 and len(kernel[0][1]) == len(tensor_vars) + 1 and all(x is y for x, y in zip(kernel[0][1], tensor_vars)) and kernel[0][1][-1] is a1
-                   and kernel[0][2] == ({"kw": kw1, "out": out} if out is not None else {"kw": kw1}), **meta)
+                   and kernel[0][2] == (dict(op_kw, out=out) if out is not None else op_kw), **meta)
         expected_locked = uniq(None, [tensor_vars], {}) if ok_cast else []
         idx_kernel = next((i for i, e_ in enumerate(ev) if e_[0] == "kernel"), None)
         pre_locks = [e_[1] for e_ in ev[: idx_kernel or 0] if e_[0] == "lock"]
@@ -299,7 +323,7 @@ def harness(cfgk, rel, can_view, outk, raises, guard, constk, p0state):
             kids = list(interp.iterate_concrete(t.fields["_view_children"]))
             ctx.oblige(f"C04.base.view_children[{t.label}].{tag}", (kids == [rt]) if t is exp_parent else (kids == []), **meta)
         if exp_base is not None:
-            ctx.oblige(f"C04.base.replay_info_recorded.{tag}", inst.attrs.get("replay_args") == (a1,) and inst.attrs.get("replay_kwargs") == {"kw": kw1} and inst.attrs.get("replay_force_constant", "missing") is constant, **meta)
+            ctx.oblige(f"C04.base.replay_info_recorded.{tag}", inst.attrs.get("replay_args") == (a1,) and inst.attrs.get("replay_kwargs") == op_kw and inst.attrs.get("replay_force_constant", "missing") is constant, **meta)
         else:
             ctx.oblige(f"C04.base.no_replay_info_for_non_views.{tag}", not inst.attrs, **meta)
         if p0state == "stale_view":
